@@ -403,7 +403,17 @@ def call(f, args, salt=None):
         _CALL_COUNTER[0] += 1
         salt = _CALL_COUNTER[0]
     j = salt % (len(args) + 1)
-    return f(*[v for _, v in args[:j]], **{k: v for k, v in args[j:]})
+    try:
+        return f(*[v for _, v in args[:j]], **{k: v for k, v in args[j:]})
+    except TypeError as e:
+        import traceback
+        if len(traceback.extract_tb(e.__traceback__)) <= 1:
+            # raised by the call itself (argument binding), not inside the function: the signature no longer accepts the
+            # documented names / order
+            from .common import DocumentedCallRejected
+            raise DocumentedCallRejected('%s(%s positional, %s by keyword): %s' % (getattr(f, '__name__', f), [k for k, _ in args[:j]],
+                                                                                   [k for k, _ in args[j:]], e)) from None
+        raise
 
 
 OPS = {}
